@@ -605,6 +605,108 @@ func ruleC03Glob(c *Checker) {
 	// an ordinary character is appended as itself
 	fr, ok = fragments('a')
 	c.check(ok && len(fr) == 1 && fr[0] == "a", R, name, "fragment for an ordinary character", p.Pos(comp.Pos()), "appended as itself", fmt.Sprintf("an ordinary character is not appended as itself (%q)", fr))
+	// a backslash escapes the character after it: appended as backslash + that character (the evaluator
+	// gives every Next() the same rune), or as an escaped backslash at the end of the pattern
+	fr, ok = fragments('\\')
+	wantEsc := map[string]bool{"\\\\": false, "\\": false}
+	okEsc := ok
+	for _, f := range fr {
+		if _, known := wantEsc[f]; !known {
+			okEsc = false
+		} else {
+			wantEsc[f] = true
+		}
+	}
+	for _, seen := range wantEsc {
+		if !seen {
+			okEsc = false
+		}
+	}
+	c.check(okEsc, R, name, "fragments for a backslash", p.Pos(comp.Pos()), fmt.Sprintf("appends %q: the escaped next character, or an escaped backslash at the end", fr), fmt.Sprintf("a backslash is not translated to 'the next character, literally' (fragments %q; on this platform the separator is not a backslash): a rule such as a\\.txt no longer excludes a.txt, or excludes something else", fr))
+	// a look-ahead character is consumed only when Peek() identified it
+	var primary ssa.Instruction
+	loopHead := acc.Block()
+	nLook := 0
+	okLook := true
+	var badLook token.Pos
+	eachInstr(comp, func(in ssa.Instruction) {
+		cl, isCall := in.(*ssa.Call)
+		if !isCall || !isNext(cl) {
+			return
+		}
+		// the first Next reached from the loop header on every iteration is the primary one
+		if primary == nil && cl.Block().Dominates(cl.Block()) {
+			dom := true
+			for _, pr := range loopHead.Preds {
+				if loopHead.Dominates(pr) && !cl.Block().Dominates(pr) {
+					dom = false
+				}
+			}
+			if dom {
+				primary = cl
+				return
+			}
+		}
+		nLook++
+		isPeekTest := func(v ssa.Value, wantEq bool) bool {
+			bo, ok := v.(*ssa.BinOp)
+			if !ok {
+				return false
+			}
+			fromPeek := false
+			for w := range p.backSlice(bo.X, 0) {
+				if pc, ok := w.(*ssa.Call); ok && isMethod(calleeObj(pc), "text/scanner", "Scanner", "Peek") {
+					fromPeek = true
+				}
+			}
+			if !fromPeek {
+				return false
+			}
+			isEOF := false
+			if k, isC := constInt(bo.Y); isC && k == -1 {
+				isEOF = true
+			}
+			if wantEq {
+				return bo.Op == token.EQL && !isEOF
+			}
+			return bo.Op == token.NEQ && isEOF
+		}
+		eqT, _ := condEdges(comp, func(v ssa.Value) bool { return isPeekTest(v, true) })
+		neT, _ := condEdges(comp, func(v ssa.Value) bool { return isPeekTest(v, false) })
+		// the test must look at the character this call consumes: it comes after every earlier Next()
+		var valid []Edge
+		for _, g := range append(eqT, neT...) {
+			test := g.From.Instrs[len(g.From.Instrs)-1]
+			fresh := true
+			eachInstr(comp, func(other ssa.Instruction) {
+				oc, isC := other.(*ssa.Call)
+				if !isC || !isNext(oc) || oc == cl {
+					return
+				}
+				if dominates(oc, cl) && !dominates(oc, test) {
+					fresh = false
+				}
+			})
+			if fresh {
+				valid = append(valid, g)
+			}
+		}
+		if len(valid) == 0 || !guarded(cl.Block(), valid) {
+			okLook = false
+			badLook = cl.Pos()
+		}
+	})
+	c.check(okLook, R, name, "look-ahead consumed only when identified", p.Pos(badLook), fmt.Sprintf("%d further Next() call(s), each past Peek() == <character> or Peek() != EOF", nLook), "the character after an operator is consumed without Peek() having identified it (the test is gone, inverted, or compares with EOF): '**' then swallows whatever follows it (a**b matches ac), or an escape reads past the end of the pattern")
+	// the whole expression is anchored at its end
+	anch := false
+	for _, ci := range callsTo(comp, func(o *types.Func) bool { return isFunc(o, "regexp", "Compile") || isFunc(o, "regexp", "MustCompile") }) {
+		if bo, ok := canon(ci.Common().Args[0]).(*ssa.BinOp); ok && bo.Op == token.ADD {
+			if k, isC := constString(bo.Y); isC && strings.HasSuffix(k, "$") {
+				anch = true
+			}
+		}
+	}
+	c.check(anch, R, name, "expression anchored at the end", p.Pos(comp.Pos()), "compiled as <accumulated> + \"$\"", "the expression handed to regexp.Compile does not end in \"$\": every rule becomes a prefix match (rule foo also excludes foobar.txt)")
 }
 
 func ruleC03LastWins(c *Checker) {
@@ -1024,6 +1126,42 @@ func ruleC03Parse(c *Checker) {
 		}
 	}
 	c.check(okHash, R, name, "'#' comment skipped", p.Pos(rd.Pos()), "a line starting with '#' adds no rule", "comment lines are no longer skipped")
+	// the line loop is left only from its header (no break on a line that is merely skipped)
+	for _, ci := range callsTo(rd, func(o *types.Func) bool { return isMethod(o, "bufio", "Scanner", "Scan") }) {
+		cl, ok := ci.(*ssa.Call)
+		if !ok {
+			continue
+		}
+		tE, _ := boolEdges(rd, cl)
+		if len(tE) == 0 {
+			continue
+		}
+		head := tE[0].From
+		body := map[*ssa.BasicBlock]bool{}
+		for b := range reachFromEdge(tE[0]) {
+			if reaches(b, head) || b == head {
+				body[b] = true
+			}
+		}
+		okExit := true
+		var badPos token.Pos
+		for b := range body {
+			if b == head {
+				continue
+			}
+			for _, s2 := range b.Succs {
+				if body[s2] {
+					continue
+				}
+				// leaving the loop from its body: only straight into an error return
+				if rej, _ := returnsNonNilErrorFrom(s2); !rej {
+					okExit = false
+					badPos = b.Instrs[len(b.Instrs)-1].Pos()
+				}
+			}
+		}
+		c.check(okExit, R, name, "line loop left only at the end of input", p.Pos(badPos), "no exit from the loop body other than an error return", "the loop over the lines can be left from its body (a break where a line is merely to be skipped): every rule after such a line — a lone '!', a comment, a blank line — is dropped without any error")
+	}
 	// trailing separator → "**" appended ; leading separator
 	sepLastT, _ := byteCmp('/', false)
 	sepFirstT, sepFirstF := byteCmp('/', true)
